@@ -439,6 +439,7 @@ class Contract:
         self.note = note
         self.setup = setup
         self.max_paths = max_paths
+        self.witnesses = None
 
     def resolve(self):
         modname, qual = self.target.split(":")
@@ -597,8 +598,15 @@ def check_contract(con: Contract, rep: Report, engine=None, crosscheck=True, kno
             if st == "refuted":
                 o.model = model_to_dict(model)
                 o.replay = replay_refutation(con, raw, combo, s, p, model, goal)
-            elif st == "discharged" and crosscheck:
+            elif st == "discharged" and crosscheck and con.native is not False:
                 crosscheck_path(con, raw, combo, s, p, rep, oid)
+            for ai, (apc, aform, alabel) in enumerate(getattr(p.run, "asserts", [])):
+                ao = rep.add(Obl(f"{oid}#inv{ai}", "I", con.name, alabel))
+                ast_, amodel, abackend, adt = valid(apc, aform)
+                rep.solver_s += adt
+                ao.status, ao.backend, ao.time = ast_, abackend, round(adt, 4)
+                if ast_ == "refuted":
+                    ao.model = model_to_dict(amodel)
             if len(rep.samples) < 6 and st == "discharged":
                 rep.samples.append({"obligation": oid, "kind": o.kind, "clause": o.desc[:300], "verdict": st,
                                     "backend": backend, "seconds": round(dt, 4)})
@@ -650,6 +658,12 @@ def clause_on_native(con, nargs, kind, val):
 
 
 def bounded_standin(con, raw, combo, rep, label, limit=4000, seed=0):
+    if con.native is False:
+        return None
+    return _bounded_standin(con, raw, combo, rep, label, limit, seed)
+
+
+def _bounded_standin(con, raw, combo, rep, label, limit=4000, seed=0):
     """Run-time check of the same contract clauses on a boundary-value grid of native inputs (labelled bounded;
     never counted as proved).  A failing case is a real failing input, hence a confirmed violation."""
     import itertools
@@ -716,6 +730,19 @@ def outcome_native(con, raw, combo, nargs):
 def replay_refutation(con, raw, combo, s, p, model, goal):
     """Replay a counter-model against the real code; returns a replay record (dict)."""
     rec = {"function": con.target, "contract": con.name, "model": model_to_dict(model)}
+    if con.native is False:
+        rec["replayed"] = False
+        rec["why"] = "obligation is over an abstract (unbounded) input; no single native input corresponds to the model"
+        # representative concrete inputs of the obligation family, run against the real code
+        for label, fn in getattr(con, "witnesses", None) or []:
+            try:
+                ok, observed = fn()
+            except BaseException as ex:   # noqa
+                ok, observed = False, f"raised {type(ex).__name__}: {ex}"
+            if not ok:
+                rec.update({"replayed": True, "confirmed": True, "inputs": {"witness": label}, "observed": str(observed)[:500]})
+                break
+        return rec
     try:
         nargs = {n: conc_under(getattr(s, n), model) for n, _ in combo}
     except Exception as ex:
